@@ -543,7 +543,11 @@ func permutations(c *core.Ctx, cf cfg, r *core.Rng) {
 func deepHistory(k int, data []gen.DataSpec) *hist.History {
 	depth := 26 + 2*(k%3)
 	var text string
-	switch k % 3 {
+	switch k % 4 {
+	case 3:
+		// nested loops around a call of an already analysed helper
+		depth = 40
+		text = `{{define "leafT"}}<i>{{.}}</i>{{end}}{{template "leafT" $.S0}}` + strings.Repeat("{{range $.L0}}", depth) + `x{{template "leafT" .E0}}` + strings.Repeat("{{end}}", depth)
 	case 0:
 		text = strings.Repeat("{{range $.L0}}", depth) + "x{{.E0}}" + strings.Repeat("{{end}}", depth)
 	case 1:
@@ -660,7 +664,7 @@ func run(c *core.Ctx, cf cfg) {
 	if cf.total {
 		// deeply nested and chained templates: the analysis treats loop bodies and recursive
 		// templates twice, which may not take 2^depth steps (shards share the shapes)
-		deep = 6
+		deep = 8
 	}
 	for i := 0; i < n+deep; i++ {
 		h, set := hist.Gen(r, cf.gopts(r, i))
